@@ -95,6 +95,27 @@ def harnesses(t):
     return same_parser and argv == want and kw.get("capture_output") is True and kw.get("text") is True and kw.get("check") is True \\
         and _RecordingParser.seen == [out] and _Consumer.finalized == 1
 ''', timeout=T, prelude=PRE, key="binary_route", note="symbolic sections list (0-3 names), symbolic objdump output text, symbolic file name"))
+    hs.append(ch.H("c15/two_runs", '''def two_runs(n: int, s1: str, f1: str, f2: str) -> bool:
+    """
+    pre: 0 <= n <= 1 and len(s1) == 2 and len(f1) == 1 and len(f2) == 1
+    post: _
+    """
+    # two binary matches in one process with the same style and sections: the second argv must not depend on the first
+    secs = [s1][:n]
+    JASMConfig.get_instance().load_config({"sections": list(secs)})
+    ok = True
+    for fname in (f1, f2, f1):
+        _Subprocess.calls = []
+        _Subprocess.out = "x"
+        producer = _m.ProducerBuilder.build(file_type=InputFileType.binary, assembly_style=DisassStyle.att)
+        producer.parser = _RecordingParser()
+        producer.process_file(file=fname, iConsumer=_Consumer())
+        want = ["objdump", "-d", "-M", "att"]
+        for s in secs:
+            want += ["-j", s]
+        ok = ok and len(_Subprocess.calls) == 1 and _Subprocess.calls[0][0] == want + [fname]
+    return ok
+''', timeout=T, prelude=PRE, key="binary_route_repeated", note="three consecutive binary matches in one process"))
     hs.append(ch.H("c15/assembly_route", '''def assembly_route(content: str, fname: str) -> bool:
     """
     pre: len(content) <= 4 and 1 <= len(fname) <= 2
